@@ -139,8 +139,30 @@ def assertEmpty (st : St) : PyM Unit :=
 def saveToken (st : St) : St :=
   if st.token ≠ [] then { st with items := st.items ++ [makeOperand st.token], token := [] } else st
 
-/-- `parse_string`; returns the new state with `rest` advanced by the match length. -/
+/-- a quoted name may follow a table prefix or a range colon (`Table 1::'a-b'`, `1:'a-b'`):
+    `delim == "'" and self.token and self.token[-1].endswith(":")`. -/
+def linked (st : St) : Bool :=
+  match st.rest with
+  | '\'' :: _ => st.token.getLast? = some ':'
+  | _ => false
+
+/-- `parse_string` (as repaired: a linked quoted name continues the pending token);
+    returns the new state with `rest` advanced by the match length. -/
+def quoteGuard (st : St) : PyM Unit := if linked st then .ok () else assertEmpty st
+
 def parseString (ws : List Nat) (st : St) : PyM St := do
+  quoteGuard st
+  let m := match st.rest with
+    | '"' :: _ => dqMatch st.rest
+    | _ => sqMatch ws st.rest
+  match m with
+  | none => .error .TokenizerError
+  | some n =>
+    if st.token ≠ [] then .ok { st with token := st.token ++ st.rest.take n, rest := st.rest.drop n }
+    else .ok { st with items := st.items ++ [makeOperand (st.rest.take n)], rest := st.rest.drop n }
+
+/-- the pinned `parse_string`: every quote needs an empty pending token. -/
+def parseStringPinned (ws : List Nat) (st : St) : PyM St := do
   assertEmpty st
   let m := match st.rest with
     | '"' :: _ => dqMatch st.rest
